@@ -323,3 +323,100 @@ def translate_swap(repo):
             tr.coerce(tr.expr(kws["score_class"]), "L"), tr.coerce(tr.expr(kws["equal_class"]), "L"),
             tr.coerce(tr.expr(kws["is_sorted"]), "B")]
     return HEADER.format(src="Scores.swap") + f"Definition gen_swap (s : scores) : scores :=\n  mk_scores {' '.join(args)}.\n"
+
+
+# ------------------------------------------------------------------ auc
+AUC_POINTS = "np.nextafter(np.concatenate([self.pos, self.neg]), [[-np.inf], [np.inf]])"
+AUC_TRY = ("try:\n    trapezoid = np.trapezoid\nexcept AttributeError:\n    trapezoid = np.trapz")
+
+
+def c_concat_n(tr, e):
+    if len(e.args) != 1 or not isinstance(e.args[0], ast.List) or e.keywords:
+        raise Reject("concatenate shape")
+    parts = []
+    for x in e.args[0].elts:
+        if isinstance(x, ast.List):     # a literal one-element list such as [lower]
+            if len(x.elts) != 1:
+                raise Reject("list literal in concatenate")
+            parts.append(f"[{tr.coerce(tr.expr(x.elts[0]), 'Q')}]")
+        else:
+            parts.append(tr.coerce(tr.expr(x), "LQ"))
+    return ("(" + " ++ ".join(parts) + ")", "LQ")
+
+
+def c_searchsorted_q(tr, e):
+    if len(e.args) != 2:
+        raise Reject("searchsorted arity")
+    a = tr.coerce(tr.expr(e.args[0]), "LQ")
+    v = tr.coerce(tr.expr(e.args[1]), "Q")
+    sd = tr.coerce(tr.expr(_kw(e, "side")), "SIDE")
+    return (f"(searchsorted {sd} {a} (Fin {v}))", "Z")
+
+
+def c_flatten(tr, e):
+    return tr.expr(e.func.value)
+
+
+def c_abs(tr, e):
+    return (f"(Qabs {tr.coerce(tr.expr(e.args[0]), 'Q')})", "Q")
+
+
+def c_trapezoid(tr, e):
+    if tr.env.get("trapezoid", (None, None))[1] != "TRAPZ" or len(e.args) != 2:
+        raise Reject("trapezoid call")
+    y, x = (tr.coerce(tr.expr(a), "LQ") for a in e.args)
+    return (f"(trapz {y} {x})", "Q")
+
+
+class AucTr(ThrTr):
+    def expr(self, e):
+        if isinstance(e, ast.Subscript) and isinstance(e.value, ast.Name) and self.env.get(e.value.id, (None, None))[1] == "LQ":
+            base = self.env[e.value.id][0]
+            sl = e.slice
+            if isinstance(sl, ast.Slice):
+                if sl.lower is None and sl.upper is None and sl.step is not None and ast.unparse(sl.step) == "-1":
+                    return (f"(rev {base})", "LQ")
+                if sl.step is None and sl.lower is not None and sl.upper is not None:
+                    lo = self.coerce(self.expr(sl.lower), "Z")
+                    hi = self.coerce(self.expr(sl.upper), "Z")
+                    return (f"(slice {base} {lo} {hi})", "LQ")
+                raise Reject("slice shape " + ast.unparse(e))
+        if isinstance(e, ast.Call) and isinstance(e.func, ast.Call) and ast.unparse(e.func.func) == "getattr":
+            # getattr(self, x_axis)(points)
+            g = e.func
+            if len(g.args) != 2 or ast.unparse(g.args[0]) != "self" or len(e.args) != 1 or e.keywords:
+                raise Reject("getattr call shape")
+            ax = self.coerce(self.expr(g.args[1]), "AX")
+            pts = self.coerce(self.expr(e.args[0]), "LQ")
+            return (f"(map (axis_at {ax} s) {pts})", "LQ")
+        return super().expr(e)
+
+    def special_stmt(self, s):
+        src = ast.unparse(s)
+        if src == "points = " + AUC_POINTS:
+            self.env["points"] = ("points", "LQ")
+            return "let points := (let all := (pos s) ++ (neg s) in map pred all ++ map succ all) in"
+        if src == AUC_TRY:
+            self.env["trapezoid"] = ("trapezoid", "TRAPZ")
+            return ""
+        return super().special_stmt(s)
+
+
+def translate_auc(repo):
+    path = os.path.join(repo, "score_analysis", "scores.py")
+    tree = ast.parse(open(path).read())
+    fn = find_function(tree, "auc", cls="Scores")
+    if [a.arg for a in fn.args.args] != ["self", "lower", "upper"] or [ast.unparse(d) for d in fn.args.defaults] != ["0.0", "1.0"]:
+        raise Reject("auc positional signature/defaults")
+    if [a.arg for a in fn.args.kwonlyargs] != ["x_axis", "y_axis"] or [ast.unparse(d) for d in fn.args.kw_defaults] != ["'fpr'", "'tpr'"]:
+        raise Reject("auc keyword signature/defaults")
+    calls = dict(THR_CALLS)
+    calls.update({"np.sort": c_sort, "np.concatenate": c_concat_n, "np.searchsorted": c_searchsorted_q, "points.flatten": c_flatten,
+                  "np.abs": c_abs, "trapezoid": c_trapezoid, "len": c_len})
+    tr = AucTr(env={"lower": ("lower", "Q"), "upper": ("upper", "Q"), "x_axis": ("x_axis", "AX"), "y_axis": ("y_axis", "AX")},
+               self_fields=SELF_FIELDS, calls=calls)
+    body = tr.block(strip_doc(fn.body))
+    return (HEADER.format(src="Scores.auc").replace("Model.Scores", "Model.Auc") +
+            "Definition side_eqb (a b : side) : bool := match a, b with SLeft, SLeft | SRight, SRight => true | _, _ => false end.\n"
+            "Section Gen.\nVariable succ pred : Q -> Q.\n"
+            f"Definition gen_auc (s : scores) (lower upper : Q) (x_axis y_axis : axis) : Q :=\n  {body}.\nEnd Gen.\n")
